@@ -220,6 +220,17 @@ Definition resolve (name : str) : resolution :=
   | None => RMissing
   end.
 
+(* submat(name) for a name that is not the path of a regular file: the whole function *)
+Inductive outcome := OMatrix (m : matrix) | OValueError | OFileNotFound (msg : str).
+Definition submat_name (name : str) : outcome :=
+  match resolve name with
+  | RFile raw => match parse raw with Some m => OMatrix m | None => OValueError end
+  | RMissing => OFileNotFound (fnf_message name)
+  end.
+(* submat(path) for an existing file with this content *)
+Definition submat_file (content : str) : outcome :=
+  match parse content with Some m => OMatrix m | None => OValueError end.
+
 (* ---------------------------------------------------------------- specification side *)
 Definition content_lines (raw : str) : list str :=
   filter (fun l => negb (skipped l)) (splitlines (universal_nl raw)).
@@ -308,6 +319,18 @@ Fixpoint word_lines (f : list aline) : list (list str) :=
   | AWords _ w1 more _ :: r => (w1 :: map snd more) :: word_lines r
   | _ :: r => word_lines r
   end.
+(* other line terminators and an optional missing terminator after the last line *)
+Inductive eol := LF | CRLF | CR.
+Definition eol_str (e : eol) : str :=
+  match e with LF => [x0a] | CRLF => [x0d; x0a] | CR => [x0d] end.
+Fixpoint render_with (e : eol) (final : bool) (f : list aline) : str :=
+  match f with
+  | [] => []
+  | l :: r => render_aline l ++ match r with
+                                | [] => if final then eol_str e else []
+                                | _ :: _ => eol_str e ++ render_with e final r
+                                end
+  end.
 (* white space that does not end a line: space, tab, \x1f *)
 Definition is_inline_ws (c : byte) : bool := is_ws c && negb (is_linebreak c).
 Definition no_linebreak (s : str) : bool := forallb (fun c => negb (is_linebreak c)) s.
@@ -323,6 +346,20 @@ Definition aline_ok (l : aline) : bool :=
       && forallb is_inline_ws trail
   end.
 Definition afile_ok (f : list aline) : bool := forallb aline_ok f.
+
+(* ---------------------------------------------------------------- canonical literals of numbers *)
+Fixpoint zeros (n : nat) : str := match n with O => [] | S n' => "0"%byte :: zeros n' end.
+(* m / 10^k written with exactly k fraction digits and at least one integer digit: -0.05, 12.50, 3. *)
+Definition render_dec (m : Z) (k : nat) : str :=
+  let ds := dec_of_Z (Z.abs m) in
+  let ds' := zeros (S k - length ds) ++ ds in
+  let n := (length ds' - k)%nat in
+  (if Z.ltb m 0 then ["-"%byte] else []) ++ firstn n ds' ++ "."%byte :: skipn n ds'.
+Definition render_num (v : num) : str :=
+  match v with NInt z => dec_of_Z z | NDec m k => render_dec m k end.
+Definition is_int_num (v : num) : bool := match v with NInt _ => true | NDec _ _ => false end.
+(* a row is all integers or all decimals *)
+Definition row_uniform (vs : list num) : bool := forallb is_int_num vs || forallb (fun v => negb (is_int_num v)) vs.
 
 (* ---------------------------------------------------------------- domain predicates *)
 (* file content: ASCII, parses without ValueError, header letters and row letters pairwise different *)
@@ -357,11 +394,13 @@ Definition num_val (v : num) : val :=
   end.
 Definition matrix_val (m : matrix) : val :=
   VL (map (fun rr => VL [VS (fst rr); VL (map (fun cv => VL [VS (fst cv); num_val (snd cv)]) (snd rr))]) m).
-Definition parsed_val (raw : str) : val :=
-  match parse raw with
-  | Some m => matrix_val m
-  | None => VE (bs "ValueError"%bs)
+Definition outcome_val (o : outcome) : val :=
+  match o with
+  | OMatrix m => matrix_val m
+  | OValueError => VE (bs "ValueError"%bs)
+  | OFileNotFound _ => VL [VS (bs "fnf"%bs); VS available]
   end.
+Definition parsed_val (raw : str) : val := outcome_val (submat_file raw).
 
 (* op 0: submat(name) where name is not a path that exists;  op 1: submat(path) of an existing file with these bytes *)
 Definition run_C20 (op : N) (name content : str) : val :=
@@ -369,14 +408,26 @@ Definition run_C20 (op : N) (name content : str) : val :=
       match op with
       | 0%N =>
           match resolve name with
-          | RFile raw => VL [VS (bs "file"%bs); VI (Z.of_nat (length raw)); VI (Z.of_N (cksum raw)); parsed_val raw]
-          | RMissing => VL [VS (bs "fnf"%bs); VS available]
+          | RFile raw => VL [VS (bs "file"%bs); VI (Z.of_nat (length raw)); VI (Z.of_N (cksum raw)); outcome_val (submat_name name)]
+          | RMissing => outcome_val (submat_name name)
           end
-      | _ => parsed_val content
+      | _ => outcome_val (submat_file content)
       end].
 
 (* op 2: a file given by its abstract layout; the text is rendered HERE (ties [render]/[afile_ok] to the harness' files) *)
 Definition run_C20f (f : list aline) : val :=
   let raw := render f in
+  VL [VB (wf_content raw);
+      VL [VB (afile_ok f); VI (Z.of_nat (length raw)); VI (Z.of_N (cksum raw)); parsed_val raw]].
+
+(* histories: several calls in one process; the model is pure, so a history is the list of the single results
+   (VNone for the driver's steps that are not calls) *)
+Definition hist_C20 (steps : list val) : val :=
+  VL [VB (forallb (fun v => match v with VL (VB b :: _) => b | VNone => true | _ => false end) steps);
+      VL (map (fun v => match v with VL [_; r] => r | _ => VNone end) steps)].
+
+(* op 3: like run_C20f with the line terminator / final terminator chosen (render_with), numbers written by render_num *)
+Definition run_C20w (e : eol) (final : bool) (f : list aline) : val :=
+  let raw := render_with e final f in
   VL [VB (wf_content raw);
       VL [VB (afile_ok f); VI (Z.of_nat (length raw)); VI (Z.of_N (cksum raw)); parsed_val raw]].
